@@ -114,7 +114,7 @@ package leanhelix
 //@   inv [O8.the-installed-term-is-wired-to-this-filter] (lh.filter.consensusMessagesHandler != nil ==> TermWired(dyn(lh.filter.consensusMessagesHandler, *leanhelixterm.LeanHelixTerm), lh.filter))
 //@   assert before call onNewConsensusRoundCallback [O13.the-host-is-told-the-new-height-the-previous-block-and-the-first-leader-flag] $newHeight == lh.state.height && $prevBlock == prevBlock && $canBeFirstLeader == canBeFirstLeader
 //@   assert before call NewLeanHelixTerm [O14.the-new-term-is-built-on-the-block-and-proof-handed-in] $prevBlock == prevBlock && $prevBlockProofBytes == prevBlockProofBytes && $canBeFirstLeader == canBeFirstLeader && $state == lh.state && $config == lh.config && $electionTrigger == lh.electionTrigger
-//@   props C13 C14 C17 C16
+//@   props C13 C14 C17 C16 C10
 //@   requires lh.state != nil && lh.filter != nil && lh.filter.state == lh.state && lh.filter.futureCache != nil && lh.state.Contexts != nil
 //@   requires [A-NONNIL.the-configured-spi-objects-are-present] lh.config != nil && lh.config.KeyManager != nil && lh.config.BlockUtils != nil && lh.config.Membership != nil && lh.config.Communication != nil && lh.electionTrigger != nil
 //@   requires [A-KM-SIGN] SignsAs(lh.config.KeyManager, lh.config.Membership.MyMemberId())
@@ -152,7 +152,7 @@ package leanhelix
 //@ func (*WorkerLoop).handleUpdateState
 //@   inv [O17.the-installed-term-is-the-term-of-the-current-height] (lh.filter.consensusMessagesHandler != nil ==> TermHeightOf(dyn(lh.filter.consensusMessagesHandler, *leanhelixterm.LeanHelixTerm)) == lh.state.height)
 //@   inv [O8.the-installed-term-is-wired-to-this-filter] (lh.filter.consensusMessagesHandler != nil ==> TermWired(dyn(lh.filter.consensusMessagesHandler, *leanhelixterm.LeanHelixTerm), lh.filter))
-//@   props C14 C13
+//@   props C14 C13 C10
 //@   requires receivedBlockWithProof != nil
 //@   requires lh.state != nil && lh.filter != nil && lh.filter.state == lh.state && lh.filter.futureCache != nil && lh.state.Contexts != nil
 //@   requires [A-NONNIL.the-configured-spi-objects-are-present] lh.config != nil && lh.config.KeyManager != nil && lh.config.BlockUtils != nil && lh.config.Membership != nil && lh.config.Communication != nil && lh.electionTrigger != nil
